@@ -21,7 +21,7 @@ PROFILE = netgen.profile(
     bus_kinds={"load": 5, "sgen": 4, "gen": 3, "storage": 2, "shunt": 1, "ward": 1, "xward": 0, "motor": 0,
                "asymmetric_load": 0, "asymmetric_sgen": 0},
     branch_kinds={"line": 10, "impedance": 1, "bb": 1},
-    zip=False, oos=0.0, open_prob=0.0, dcline=True, second_slack=8, slack_gen=True, noslack_island=False,
+    zip=False, oos=0.0, open_prob=0.0, dcline=True, second_slack=20, slack_gen=True, noslack_island=False,
     shifts=(0.0, 0.0, 0.0, 30.0, -30.0), scaling=False, gen_qlims=False, custom_index=True,
     sn_choices=(1.0, 1.0, 10.0, 100.0, 0.5, 1000.0))
 
@@ -38,19 +38,17 @@ DEFAULT_CFG = dict(
     const=0.3,               # chance of a constant term per poly cost entry
     even_on_consumers=0.25,  # chance that a case may put c2/c0 on load/storage/dcline entries (the F8 shape)
     fixed_cost=0.08,         # chance per non-dispatchable (non-controllable / out of service) element of a cost entry
-    tight_branch=0.45, bus_limits=True, gen_index_gap=0.1,
+    tight_branch=0.45, bus_limits=True, gen_fixed=0.12, gen_index_gap=0.1,
     oos_el=0.015, oos_bus=0.008, open_switch=0.08,
     dcline_lossless=0.6,     # share of dclines without losses (the OPF loss model deviates from the documented one)
     dead_terminal=0.1,       # share of cases that keep an in-service ext_grid/dcline at an out-of-service bus
 )
 
 
-_UNIFORM = st.sampled_from(range(1000))
-
-
-def _chance(draw, p):
-    """uniform Bernoulli draw (st.floats(0, 1) and st.integers are heavily biased towards 0, sampled_from is uniform)"""
-    return draw(_UNIFORM) < int(round(p * 1000))
+def _chance(rnd, p):
+    """Bernoulli decision from a seeded random.Random (st.randoms(use_true_random=True)): Hypothesis' own draws are heavily biased
+    towards the first alternative (measured: st.integers(0, 9) < 3 in 59 % of the draws), which would make rare shapes frequent"""
+    return rnd.random() < p
 
 
 def _level_s(recipe, pos):
@@ -73,7 +71,7 @@ def _q_limits(draw, S, qset, wide=0.3):
 
 
 @st.composite
-def opf_data(draw, recipe, cfg):
+def opf_data(draw, recipe, cfg, rnd):
     """adds controllable flags and limits to the recipe elements in place and returns it"""
     el = recipe["el"]
     # out-of-service parts and open switches (netgen's own flags use st.floats and are far too frequent for OPF problems)
@@ -81,14 +79,14 @@ def opf_data(draw, recipe, cfg):
     first_slack = next(e for e in el if e["t"] == "ext_grid" or (e["t"] == "gen" and e.get("slack")))
     for e in el:
         if e["t"] == "switch":
-            if e["et"] != "b" and _chance(draw, cfg["open_switch"]):
+            if e["et"] != "b" and _chance(rnd, cfg["open_switch"]):
                 e["closed"] = False
-        elif e is not first_slack and _chance(draw, cfg["oos_el"]):
+        elif e is not first_slack and _chance(rnd, cfg["oos_el"]):
             e["in_service"] = False
     for i, b in enumerate(recipe["buses"]):
-        if i != slack_pos and _chance(draw, cfg["oos_bus"]):
+        if i != slack_pos and _chance(rnd, cfg["oos_bus"]):
             b["in_service"] = False
-    if not _chance(draw, cfg["dead_terminal"]):
+    if not _chance(rnd, cfg["dead_terminal"]):
         dead = {i for i, b in enumerate(recipe["buses"]) if not b.get("in_service", True)}
         for e in el:
             if (e["t"] == "ext_grid" and e["bus"] in dead) or (e["t"] == "dcline" and (e["from_bus"] in dead or e["to_bus"] in dead)):
@@ -98,11 +96,12 @@ def opf_data(draw, recipe, cfg):
         sum(abs(e.get("ps_mw", 0.0)) + abs(e.get("pz_mw", 0.0)) for e in el if e["t"] == "ward")
     smax = max(LEVELS[b["vn_kv"]]["s"] for b in recipe["buses"])
     big = _r(max(total * 3, smax * 2))
+    n_eg = sum(1 for e in el if e["t"] == "ext_grid")
     for e in el:
         t = e["t"]
         if t in ("load", "sgen", "storage"):
             S = _level_s(recipe, e["bus"])
-            if _chance(draw, cfg["ctrl"][t]):
+            if _chance(rnd, cfg["ctrl"][t]):
                 e["controllable"] = True
                 p = e["p_mw"]
                 if t == "load":
@@ -120,7 +119,7 @@ def opf_data(draw, recipe, cfg):
                 e["controllable"] = False
                 if draw(st.integers(0, 1)):   # limits of non-controllable elements are declared but not used
                     e["min_p_mw"], e["max_p_mw"] = 0.0, _r(abs(e["p_mw"]) + 0.1 * S)
-            if _chance(draw, cfg["scaling"]):
+            if _chance(rnd, cfg["scaling"]):
                 e["scaling"] = draw(st.sampled_from([0.5, 1.3, 2.0]))
         elif t == "gen":
             S = _level_s(recipe, e["bus"])
@@ -131,20 +130,24 @@ def opf_data(draw, recipe, cfg):
                 if draw(st.integers(0, 2)) == 0:
                     e["controllable"] = True
                 continue
-            c = draw(st.integers(0, 9))
-            if c < 3:
+            c = rnd.random()
+            if c < 0.3:
                 e["controllable"] = True
-            elif c < 5:
+            elif c < 0.3 + cfg["gen_fixed"]:
                 e["controllable"] = False
             top = _r(max(p, 0.1 * S) * draw(st.sampled_from([1.0, 1.5, 2.0])))
             e["min_p_mw"] = draw(st.sampled_from([0.0, 0.0, _r(0.3 * p)]))
             e["max_p_mw"] = top
             e["min_q_mvar"] = _r(-S * draw(q(0.05, 0.5, nd=2)))
             e["max_q_mvar"] = _r(S * draw(q(0.05, 0.5, nd=2)))
-            if _chance(draw, cfg["scaling"]):
+            if e.get("controllable") is False:      # a fixed voltage needs reactive power headroom to be feasible
+                e["min_q_mvar"], e["max_q_mvar"] = _r(-2 * S), _r(2 * S)
+            if _chance(rnd, cfg["scaling"]):
                 e["scaling"] = draw(st.sampled_from([0.5, 1.3, 2.0]))
         elif t == "ext_grid":
             k = draw(st.integers(0, 9))
+            if n_eg > 1:
+                k = min(k, 3)       # exchange between two unlimited ext_grids is an unbounded problem
             if k < 4:
                 e["min_p_mw"], e["max_p_mw"] = -big, big
                 e["min_q_mvar"], e["max_q_mvar"] = -big, big
@@ -161,7 +164,7 @@ def opf_data(draw, recipe, cfg):
             if e["p_mw"] <= 0:
                 e["p_mw"] = _r(0.05 * S)
             e["max_p_mw"] = _r(e["p_mw"] * draw(st.sampled_from([1.0, 1.5, 3.0])))
-            if _chance(draw, cfg["dcline_lossless"]):
+            if _chance(rnd, cfg["dcline_lossless"]):
                 e["loss_percent"], e["loss_mw"] = 0.0, 0.0
             qa, qb = _r(S * draw(q(0.05, 0.4, nd=2))), _r(S * draw(q(0.05, 0.4, nd=2)))
             e.update(min_q_from_mvar=-qa, max_q_from_mvar=qa, min_q_to_mvar=-qb, max_q_to_mvar=qb)
@@ -171,17 +174,20 @@ def opf_data(draw, recipe, cfg):
         for e in egs:
             e.setdefault("controllable", draw(st.booleans()))
 
-    # branch loading limits
-    style = draw(st.sampled_from(["none", "100", "mixed", "mixed", "tight"]))
+    # branch loading limits: none / 100 % everywhere / a mix, plus one or two really tight branches in "tight" cases
+    # (tight limits on every branch make most problems infeasible: measured 17 % convergence)
+    style = draw(st.sampled_from(["none", "100", "mixed", "mixed", "tight", "tight"]))
+    branches = [e for e in el if e["t"] in ("line", "trafo", "trafo3w")]
     if style != "none":
-        for e in el:
-            if e["t"] in ("line", "trafo", "trafo3w"):
-                if style == "100":
-                    e["max_loading_percent"] = 100.0
-                elif style == "tight" or _chance(draw, cfg["tight_branch"]):
-                    e["max_loading_percent"] = float(draw(st.integers(15, 90)))
-                elif draw(st.integers(0, 2)):
-                    e["max_loading_percent"] = draw(st.sampled_from([100.0, 120.0]))
+        for e in branches:
+            if style == "100":
+                e["max_loading_percent"] = 100.0
+            elif draw(st.integers(0, 2)):
+                e["max_loading_percent"] = draw(st.sampled_from([100.0, 100.0, 120.0, 80.0]))
+        if style == "tight" and branches:
+            for _ in range(1 + int(_chance(rnd, cfg["tight_branch"]))):
+                e = branches[draw(st.integers(0, len(branches) - 1))]
+                e["max_loading_percent"] = float(draw(st.integers(10, 70)))
     # bus voltage limits (equal within an electrical node)
     if cfg["bus_limits"]:
         style = draw(st.sampled_from(["none", "wide", "normal", "mixed", "mixed"]))
@@ -199,7 +205,7 @@ def opf_data(draw, recipe, cfg):
                     b["max_vm_pu"] = hi
     # non-consecutive gen indices (the dcline cost mapping counts generator positions)
     gens = [e for e in el if e["t"] == "gen"]
-    if gens and _chance(draw, cfg["gen_index_gap"]):
+    if gens and _chance(rnd, cfg["gen_index_gap"]):
         off = draw(st.sampled_from([1, 5]))
         for i, e in enumerate(gens):
             e["index"] = off + 2 * i
@@ -218,12 +224,12 @@ def _dispatchable(e):
 
 
 @st.composite
-def opf_costs(draw, recipe, cfg, ac):
+def opf_costs(draw, recipe, cfg, ac, rnd):
     el = recipe["el"]
-    quad = _chance(draw, cfg["quad"])
-    pwl = (not quad) and _chance(draw, cfg["pwl"])
-    qcost = ac and _chance(draw, cfg["q_cost"])
-    even_cons = _chance(draw, cfg["even_on_consumers"])
+    quad = _chance(rnd, cfg["quad"])
+    pwl = (not quad) and _chance(rnd, cfg["pwl"])
+    qcost = ac and _chance(rnd, cfg["q_cost"])
+    even_cons = _chance(rnd, cfg["even_on_consumers"])
     costs = []
     count = {}
     seen_slack = False
@@ -238,7 +244,7 @@ def opf_costs(draw, recipe, cfg, ac):
         seen_slack = seen_slack or is_first_slack
         is_slack = t == "ext_grid" or (t == "gen" and e.get("slack"))   # reactive power of a slack is practically unbounded
         # the first slack nearly always carries a cost: otherwise balancing energy is free and most problems are degenerate
-        if not _chance(draw, 0.9 if is_first_slack else (cfg["cost_prob"] if disp else cfg["fixed_cost"])):
+        if not _chance(rnd, 0.9 if is_first_slack else (cfg["cost_prob"] if disp else cfg["fixed_cost"])):
             continue
         S = _level_s(recipe, e["bus"] if "bus" in e else e["from_bus"])
         consumer = t in ("load", "storage", "dcline")
@@ -276,13 +282,13 @@ def opf_costs(draw, recipe, cfg, ac):
         even_ok = (not consumer) or even_cons
         if quad and even_ok and draw(st.integers(0, 3)):
             c["cp2_eur_per_mw2"] = _r(abs(base if base else 1.0) / S * draw(q(0.1, 3.0, nd=1)))
-        if even_ok and _chance(draw, cfg["const"]):
+        if even_ok and _chance(rnd, cfg["const"]):
             c["cp0_eur"] = draw(q(-50.0, 50.0, nd=1))
         if qcost and t != "dcline" and not is_slack and draw(st.integers(0, 1)):
             c["cq1_eur_per_mvar"] = draw(q(-5.0, 5.0, nd=1))
             if quad and even_ok and draw(st.integers(0, 1)):
                 c["cq2_eur_per_mvar2"] = _r(5.0 / S * draw(q(0.1, 2.0, nd=1)))
-            if even_ok and _chance(draw, cfg["const"]):
+            if even_ok and _chance(rnd, cfg["const"]):
                 c["cq0_eur"] = draw(q(-20.0, 20.0, nd=1))
         costs.append(c)
     return costs
@@ -292,14 +298,15 @@ def opf_costs(draw, recipe, cfg, ac):
 def opf_case(draw, cfg=None, profile=None):
     cfg = dict(DEFAULT_CFG, **(cfg or {}))
     recipe = draw(netgen.grid(profile or PROFILE))
-    recipe = draw(opf_data(recipe, cfg))
-    ac = not _chance(draw, cfg["p_dc"])
+    rnd = draw(st.randoms(use_true_random=True))
+    recipe = draw(opf_data(recipe, cfg, rnd))
+    ac = not _chance(rnd, cfg["p_dc"])
     if ac:
         opt = {"mode": "ac", "init": draw(st.sampled_from(["flat", "flat", "pf"])),
                "calculate_voltage_angles": draw(st.sampled_from([True, True, False]))}
     else:
         opt = {"mode": "dc"}
-    costs = draw(opf_costs(recipe, cfg, ac))
+    costs = draw(opf_costs(recipe, cfg, ac, rnd))
     return {"recipe": recipe, "costs": costs, "opt": opt}
 
 
@@ -389,3 +396,54 @@ def user_cost(net, maps, costs, ac):
         parts.append((c["et"], int(idx), c["kind"], p, qv, v))
         total += v
     return total, parts
+
+
+def energized_buses(net):
+    """own connectivity search on the tables: buses connected to an in-service slack (ext_grid or slack gen) through closed
+    switches and in-service branches (dclines do not energize, as in the power flow)"""
+    ok = {b: bool(net.bus.at[b, "in_service"]) for b in net.bus.index}
+    adj = {b: set() for b in net.bus.index}
+
+    def link(a, b):
+        if ok.get(a) and ok.get(b):
+            adj[a].add(b)
+            adj[b].add(a)
+    sw = net.switch
+    open_el = {"l": {}, "t": {}, "t3": {}}
+    for i in sw.index:
+        et = sw.at[i, "et"]
+        if et == "b":
+            if bool(sw.at[i, "closed"]):
+                link(sw.at[i, "bus"], sw.at[i, "element"])
+        elif not bool(sw.at[i, "closed"]):
+            open_el[et].setdefault(sw.at[i, "element"], set()).add(sw.at[i, "bus"])
+    for tab, et, cols in (("line", "l", ("from_bus", "to_bus")), ("trafo", "t", ("hv_bus", "lv_bus")),
+                          ("trafo3w", "t3", ("hv_bus", "mv_bus", "lv_bus")), ("impedance", None, ("from_bus", "to_bus"))):
+        for i in net[tab].index:
+            if not bool(net[tab].at[i, "in_service"]):
+                continue
+            ends = [net[tab].at[i, c] for c in cols]
+            opened = open_el.get(et, {}).get(i, set()) if et else set()
+            ends = [b for b in ends if b not in opened]
+            for a in ends[1:]:
+                link(ends[0], a)
+    start = [net.ext_grid.at[i, "bus"] for i in net.ext_grid.index if net.ext_grid.at[i, "in_service"]]
+    start += [net.gen.at[i, "bus"] for i in net.gen.index if net.gen.at[i, "in_service"] and bool(net.gen.at[i, "slack"])]
+    seen = set()
+    stack = [b for b in start if ok.get(b)]
+    while stack:
+        a = stack.pop()
+        if a in seen:
+            continue
+        seen.add(a)
+        stack.extend(adj[a] - seen)
+    return seen
+
+
+def dcline_dead_terminal(net):
+    """an in-service dcline with a terminal at a bus that is out of service or not connected to a slack"""
+    if not len(net.dcline):
+        return False
+    live = energized_buses(net)
+    return any(bool(net.dcline.at[i, "in_service"]) and not (net.dcline.at[i, "from_bus"] in live and net.dcline.at[i, "to_bus"] in live)
+               for i in net.dcline.index)
